@@ -1,4 +1,4 @@
-CONSTANTS MaxDepth = 4
+CONSTANTS MaxDepth = 5
           MaxRowsC = 12
 INIT Init
 NEXT NextSharedAll
